@@ -25,7 +25,8 @@ META = {
              'association class / fields / member ids / extras, attackers id / name / entry points); the loaded model is '
              'saved again and the parsed file contents compared; hand-written files (permuted asset order, id 0 not first, '
              'type-only shorthand, scalar instead of list targets) must load to the model they describe; non-trivial = '
-             'model with >= 2 assets and >= 1 association; distinct = digest(history, format)'),
+             'model with >= 2 assets and >= 1 association; distinct = digest(history, format)'
+             '; added strata: exotic characters in names / extras / model name, defense values next to the defaults and given as int, path shapes (absolute, relative, ./x, bare, dots and blanks), a smaller model saved over the same path'),
     'assumptions': ['shadow model semantics (mtv/shadow.py)', 'PyYAML / json as libraries'],
     'shards': {'quick': 8, 'thorough': 16},
     'quotas': {
